@@ -71,6 +71,70 @@ impl TlcOut {
   }
 }
 
+/// TLC pretty-prints tuples wider than its line width over several lines
+/// (`<< "TAG",\n   1,\n   "text" >>`). This joins such prints back into the
+/// single-line form `<<"TAG", 1, "text">>` the parsers below expect.
+pub fn normalise_tuples(stdout: &str) -> Vec<String> {
+  let mut out = vec![];
+  let mut pending: Option<String> = None;
+  for line in stdout.lines() {
+    if let Some(p) = pending.as_mut() {
+      p.push(' ');
+      p.push_str(line.trim());
+      if line.trim_end().ends_with(">>") {
+        out.push(compact_tuple(&pending.take().unwrap()));
+      }
+      continue;
+    }
+    if line.starts_with("<< ") {
+      if line.trim_end().ends_with(">>") {
+        out.push(compact_tuple(line));
+      } else {
+        pending = Some(line.trim_end().to_string());
+      }
+    } else {
+      out.push(line.to_string());
+    }
+  }
+  if let Some(p) = pending {
+    out.push(p);
+  }
+  out
+}
+
+/// `<< "A", 1, "b c" >>` -> `<<"A", 1, "b c">>` (whitespace outside string literals normalised).
+fn compact_tuple(t: &str) -> String {
+  let inner = t.trim().trim_start_matches("<<").trim_end_matches(">>").trim();
+  let mut parts: Vec<String> = vec![];
+  let mut cur = String::new();
+  let mut in_str = false;
+  let mut esc = false;
+  for c in inner.chars() {
+    if in_str {
+      cur.push(c);
+      if esc {
+        esc = false;
+      } else if c == '\\' {
+        esc = true;
+      } else if c == '"' {
+        in_str = false;
+      }
+    } else if c == '"' {
+      in_str = true;
+      cur.push(c);
+    } else if c == ',' {
+      parts.push(cur.trim().to_string());
+      cur.clear();
+    } else {
+      cur.push(c);
+    }
+  }
+  if !cur.trim().is_empty() {
+    parts.push(cur.trim().to_string());
+  }
+  format!("<<{}>>", parts.join(", "))
+}
+
 pub fn unescape_tla(s: &str) -> String {
   let mut out = String::with_capacity(s.len());
   let mut it = s.chars();
@@ -244,7 +308,7 @@ impl Tlc {
       wall_s: start.elapsed().as_secs_f64(),
       ..Default::default()
     };
-    out.lines = stdout.lines().map(|s| s.to_string()).collect();
+    out.lines = normalise_tuples(&stdout);
     let mut success_line = false;
     for l in &out.lines {
       if l.contains("states generated") && l.contains("distinct states found") {
